@@ -30,6 +30,7 @@ NT == Len(sc.threads)
 OpOf(t, i) == sc.threads[t][i]
 KeyOf(op) == IF "k" \in DOMAIN op THEN op.k ELSE 0
 IsRead(op) == op.op \in {"get", "size", "range", "reader"}
+HasFailOp == \E t \in 1..Len(sc.threads) : \E i \in 1..Len(sc.threads[t]) : sc.threads[t][i].op = "putfail"
 
 (***************************************************************************)
 (* The directory at a scheduling step (every worker parked), decoded by the *)
@@ -99,6 +100,8 @@ RetFails(r, seen) ==
       IF IsRead(op) THEN Fail(r.res.ok, "C05:read-failed-" \o r.res.err) ELSE {},
       \* nothing is injected in these runs: a write-side call has no reason to fail
       IF ~IsRead(op) THEN Fail(r.res.ok, "OPFAIL:" \o op.op \o "-failed-" \o r.res.err) ELSE {},
+      \* the one operation that is MEANT to fail (the harness removes its staging file before finish): it reports "failed"
+      IF op.op = "putfail" /\ r.res.ok THEN Fail(r.res.val = "failed", "DRIFT:putfail-did-not-fail") ELSE {},
       IF IsRead(op) /\ r.res.ok THEN Fail(r.res.val \in seen, "C05:read-value-not-held-during-call") ELSE {},
       IF op.op \in {"put", "txfinish"} /\ r.res.ok THEN Fail(op.c \in seen, "C05:put-not-visible-during-call") ELSE {},
       IF op.op = "del" /\ r.res.ok /\ r.res.val = "true" THEN Fail(seen \ {Absent} # {}, "C05:remove-true-but-never-present") ELSE {},
@@ -158,9 +161,18 @@ OnEnd == /\ Line.ev = "end"
               UNION {
                 Fail(\A t \in 1..NT : oopi[t] = Len(sc.threads[t]) + 1, "C15:call-never-returned"),
                 \* C07 at quiescence of an error-free program (planted orphans may legitimately remain if no clean-up ran)
-                Fail(lobs.has_idx /\ SeqToSet(lobs.cas) \ SeqToSet(sc.plant) = Live(lobs.idx) \ SeqToSet(sc.plant), "C07:cas-listing-at-quiescence"),
+                \* (a reverted commit may leave an unreferenced blob behind that it protected while its last holder was removed: an
+                \*  orphan for the next start-up scan - not an error-free program, noted beyond the list)
+                Fail(HasFailOp \/ (lobs.has_idx /\ SeqToSet(lobs.cas) \ SeqToSet(sc.plant) = Live(lobs.idx) \ SeqToSet(sc.plant)), "C07:cas-listing-at-quiescence"),
+                IF HasFailOp THEN Fail(lobs.has_idx /\ SeqToSet(lobs.cas) \ SeqToSet(sc.plant) = Live(lobs.idx) \ SeqToSet(sc.plant),
+                                       "BEYOND:orphan-left-after-a-reverted-commit") ELSE {},
+                \* ... but nothing LESS than the live set, ever
+                Fail(~lobs.has_idx \/ Live(lobs.idx) \subseteq SeqToSet(lobs.cas), "C04:dangling-at-quiescence"),
                 Fail(lobs.stg = 0 \/ (sc.stgleft /\ lobs.stg = 1), "C07:staging-at-quiescence"),
-                Fail(lobs.has_intents /\ \A k \in Keys : lobs.intents[k] = Absent, "C07:intent-left"),
+                \* (C07 speaks of error-free programs; a program with a commit that is made to fail is judged beyond the list)
+                Fail(HasFailOp \/ (lobs.has_intents /\ \A k \in Keys : lobs.intents[k] = Absent), "C07:intent-left"),
+                IF HasFailOp THEN Fail(lobs.has_intents /\ \A k \in Keys : lobs.intents[k] = Absent,
+                                       "BEYOND:intent-slot-left-after-a-reverted-commit") ELSE {},
                 QuiescentDiskFails(lobs, Line.disk),
                 Fail(AllDone(s), "DRIFT:model-not-done")
               })
